@@ -41,7 +41,7 @@ func init() {
 	register(&PropSpec{ID: "C01",
 		Explanation: "Structural agreement clauses of the SubRip codec: (a) the HTML escape and unescape tables (constant arguments of the two strings.NewReplacer calls) are exact inverses, every escaped form starts with '&', '&' itself is escaped, no escaped form prefixes another — the necessary condition for '&', '<' and NBSP surviving; (b) in the run tokenizer the start-tag and end-tag switches cover the same tags and write the same state fields, every state field is copied into the attributes captured per text run, and the writer closes the tags it opens in reverse order and emits only tags the reader handles; (c) writer separator ∈ reader separators at millisecond scale. Not decided: any equality between decoded documents (line endings, index handling, trailing blank lines, state reset per cue).",
 		Assumptions: commonAssumptions,
-		Rules:       []Rule{{"escape-tables", ruleEscapeTables}, {"srt-tags", ruleSRTTags}, {"timestamp-format", ruleDurationFormats("SRT")}, {"emit-every-element", ruleEmitEveryElement([]string{"Subtitles.WriteToSRT"}, 1)}, {"fixed-radix", ruleFixedRadix}, {"per-cue-independence", ruleNoCarriedState((*Prog).WriterClosure, 5)}},
+		Rules:       []Rule{{"escape-tables", ruleEscapeTables}, {"srt-tags", ruleSRTTags}, {"timestamp-format", ruleDurationFormats("SRT")}, {"emit-every-element", ruleEmitEveryElement([]string{"Subtitles.WriteToSRT"}, 1)}, {"fixed-radix", ruleFixedRadix}, {"per-cue-independence", ruleNoCarriedState((*Prog).WriterClosure, 5)}, {"pending-cue", ruleSRTPendingCue}},
 	})
 	register(&PropSpec{ID: "C02",
 		Explanation: "Structural agreement clauses of the WebVTT codec: every cue setting (separator ':') and region setting (separator '=') the writer emits is parsed by the reader's switch into the same model field (tables extracted from the constant+field concatenations of the writer and the switch arms of the reader); escape tables are inverse; all region definitions are emitted before the cue loop starts; timestamp separator/scale agree and the inline-timestamp pattern accepts the writer's shape. Not decided: tag-stack semantics, voice extraction, comment attachment, STYLE content, round trip.",
